@@ -570,4 +570,405 @@ theorem rp_block (C : Crypto) (hC : HashWF C) (bs : Array Bytes) (m : Nat) (c : 
     rw [LiveRefine.maybeFlush_eq]
     split <;> rfl
 
+theorem dk_lt_64 (o d k m : Nat) (hm : m < 2 ^ 64) (hin : (o / 2 ^ k + 1) * 2 ^ (d + k) ≤ m) : d + k < 64 := by
+  have h4 : 2 ^ (d + k) ≤ (o / 2 ^ k + 1) * 2 ^ (d + k) := Nat.le_mul_of_pos_left _ (Nat.succ_pos _)
+  have h5 : 2 ^ (d + k) < 2 ^ 64 := by omega
+  exact (Nat.pow_lt_pow_iff_right (by decide : 1 < 2)).mp h5
+
+/-- **a hash exchange keeps both invariants** -/
+theorem rp_hash (C : Crypto) (hC : HashWF C) (bs : Array Bytes) (m : Nat) (c : Core) (d : Disk) (held : Nat → Bool) (h : RP C bs m c d held)
+    (d0 o0 : Nat) (hin0 : (o0 + 1) * 2 ^ d0 ≤ m) :
+    (c.verifyAndApply C d (honestHash C bs c d d0 o0)).result = .ok true
+      ∧ RP C bs m (c.verifyAndApply C d (honestHash C bs c d d0 o0)).core
+          (d.applyAll (c.verifyAndApply C d (honestHash C bs c d d0 o0)).journal) held
+      ∧ (c.verifyAndApply C d (honestHash C bs c d d0 o0)).core.publicKey = c.publicKey
+      ∧ (c.verifyAndApply C d (honestHash C bs c d d0 o0)).core.tree.fork = c.tree.fork := by
+  have hr := h.rep
+  have hsz := size_extract bs m hr.le
+  have hR := (repr_extract C bs m hr.le hr.small c d held).mpr hr
+  have hin0' : (o0 + 1) * 2 ^ d0 ≤ (bs.extract 0 m).size := by rw [hsz]; exact hin0
+  have hshape := hash_shape C hC (bs.extract 0 m) c d held hR d0 o0 hin0'
+  rw [honestHash_extract C bs m c d held hr d0 o0 hin0] at hshape
+  obtain ⟨_, hin, _⟩ := missingNodes_spec_node C bs m c.tree d.tree hr.closed.sparse (by have := hr.small.1; have := hr.le; omega) d0 o0 hin0
+  have hk64 := dk_lt_64 o0 d0 _ m (by have := hr.small.1; have := hr.le; omega) hin
+  have hrep1 := (repr_extract C bs m hr.le hr.small _ _ _).mp (hashCore_repr C hC (bs.extract 0 m) c d held hR d0 o0 hin0')
+  generalize he : ({ treeNodes := hashNodes C (bs.extract 0 m) c d d0 o0, treeUpgrade := none, bitfield := none } : Entry) = e at hshape hrep1
+  have hen : e.treeNodes = hashNodes C (bs.extract 0 m) c d d0 o0 := by rw [← he]
+  have hc1o : (hashCore C (bs.extract 0 m) c d d0 o0).oplog = (Oplog.appendEntry c.oplog e).1 := by simp only [hashCore, ← he]
+  have hc1h : (hashCore C (bs.extract 0 m) c d d0 o0).header = c.header := rfl
+  have hc1t : (hashCore C (bs.extract 0 m) c d d0 o0).tree = { c.tree with unflushed := insertAll c.tree.unflushed e.treeNodes } := by
+    simp only [hashCore, ← he]
+  have hc1b : (hashCore C (bs.extract 0 m) c d d0 o0).bitfield = c.bitfield := rfl
+  have hstep := rp_step C bs m m c (hashCore C (bs.extract 0 m) c d d0 o0) d held held
+    (c.verifyAndApply C d (honestHash C bs c d d0 o0)) e [] h
+    (by rw [hshape]; exact ⟨rfl, rfl⟩) hrep1 (fun hf es hp => by
+      refine persist_entry C c _ d hf es e _ hp ?_ (fun op hop => by cases hop) hc1o ?_ ?_ ?_ ?_ ?_ ?_ ?_ ?_
+      · rw [← he]
+        generalize hk : c.tree.missingNodes d.tree (Flat.index d0 o0) = k at hin hk64
+        have hlen : (hashNodes C (bs.extract 0 m) c d d0 o0).length = 1 + 2 * k := by
+          simp only [hashNodes, hk, List.length_cons, downPath_length]; omega
+        apply entry_ok
+        · apply refNodes_wf C hC (bs.extract 0 m) (by rw [hsz]; have := h.size; have := hr.le; omega)
+            (by rw [hsz, psum_extract bs m hr.le m (Nat.le_refl _)]; have := psum_mono bs hr.le; have := hr.small.2; omega)
+          · intro x hx
+            simp only [hashNodes, hk] at hx
+            exact pathNodes_bound C (bs.extract 0 m) d0 o0 k _ (by rw [hsz]; exact hin) x hx
+          · rw [hlen]; omega
+        · rw [hlen]; omega
+        · intro u hu; cases hu
+        · intro b hb; cases hb
+      · intro ol b hb1 hb2
+        refine ⟨b, ?_, ?_, hb2⟩
+        · rw [hc1h, hc1t, ← he]; exact replay_hash C d c ol b _
+        · intro j; rw [hc1b]; exact hb1 j
+      · rw [hc1b]; exact hp.dirty
+      · rw [hc1h]; exact hp.shape
+      · rw [hc1h, hc1t]; exact hp.hdrLen
+      · rw [hc1h, hc1t]; exact hp.hdrFork
+      · rw [hc1h, hc1t]; exact hp.hdrSig
+      · rw [hc1h]; exact hp.hdrSigLen
+      · rw [hc1h]; exact hp.keys)
+  refine ⟨by rw [hshape], by simpa using hstep, ?_, ?_⟩
+  · rw [hshape]
+    simp only []
+    rw [LiveRefine.maybeFlush_eq]
+    split <;> rfl
+  · rw [hshape]
+    simp only []
+    rw [LiveRefine.maybeFlush_eq]
+    split <;> rfl
+
+/-! ### growth -/
+
+theorem node?_unflushed (t t' : Tree) (f : File) (i : Nat) (h : t'.unflushed = t.unflushed) : t'.node? f i = t.node? f i := by
+  unfold Tree.node?; rw [h]
+
+/-- replaying an upgrade entry: `truncate` finds the new roots among the entry's nodes and the store, and the commit
+    reproduces the live tree and header -/
+theorem replay_grow (C : Crypto) (bs : Array Bytes) (d : Disk) (c : Core) (ol : Oplog.State) (b : Bitfield) (cs : Changeset) (n : Nat)
+    (sig : Bytes) (hn : n < 2 ^ 64) (hroots : cs.roots = rootsAt C bs n) (hlen : cs.length = n) (hbytes : cs.byteLength = psum bs n)
+    (hsig : cs.signature = some sig) (hsl : sig.length = 64) (hup : cs.upgraded = true) (hanc : cs.ancestors = c.tree.length)
+    (hhash : cs.hash = some (rootsHash C cs.roots)) (hfork : cs.fork = c.tree.fork) (hcur : Reopen.AllRef C bs c.tree.roots)
+    (hR : ∀ p ∈ rootsStack n, (growCore c cs).tree.node? d.tree (Flat.index p.1 p.2) = some (nodeAt C bs p.1 p.2)) :
+    replayEntry C d (ol, c.header, c.tree, b) (Core.entryOf cs none c.header).1
+      = .ok (ol, (Core.entryOf cs none c.header).2, (growCore c cs).tree, b) := by
+  generalize ht' : ({ c.tree with unflushed := insertAll c.tree.unflushed cs.nodes } : Tree) = t'
+  have hR' : ∀ p ∈ rootsStack n, t'.node? d.tree (Flat.index p.1 p.2) = some (nodeAt C bs p.1 p.2) := by
+    intro p hp
+    rw [← hR p hp]
+    exact node?_unflushed _ _ _ _ (by rw [← ht']; rfl)
+  have htr := truncate_sparse C bs t' d.tree n cs.fork hn hR' (by rw [← ht']; exact hcur)
+  have hcm : t'.commitable { t'.changeset with roots := rootsAt C bs n, fork := cs.fork, length := n, ancestors := cs.ancestors, byteLength := psum bs n, upgraded := true, hash := some (rootsHash C (rootsAt C bs n)), signature := some sig } = true := by
+    simp [Tree.commitable, Tree.changeset]
+  have hnl : ¬ (cs.ancestors < t'.length) := by rw [hanc, ← ht']; exact Nat.lt_irrefl _
+  simp only [replayEntry, Core.entryOf, hup, ite_true, Reopen.foldl_addNode, ht', hlen, htr, hsig, Option.getD_some, hsl, ne_eq,
+    not_true_eq_false, ite_false, Tree.commit, hcm, Bool.not_true, Bool.false_eq_true, Bool.true_and, decide_eq_true_eq]
+  simp only [Tree.changeset, hnl, ite_false, hhash, Option.getD_some, hroots]
+  simp only [growCore, ← ht', hroots, hlen, hbytes, hsig, Changeset.nodes, List.reverse_nil, List.foldl_nil]
+
+theorem entryOf_up (cs : Changeset) (h : Header) (hup : cs.upgraded = true) :
+    Core.entryOf cs none h = ({ treeNodes := cs.nodes, treeUpgrade := some ⟨cs.fork, cs.ancestors, cs.length, cs.signature.getD []⟩, bitfield := none },
+      { h with tree := { h.tree with rootHash := cs.hash.getD [], signature := cs.signature.getD [], length := cs.length } }) := by
+  simp only [Core.entryOf, hup, ite_true]
+
+/-- **a growth round keeps both invariants** -/
+theorem rp_grow (C : Crypto) (hC : HashWF C) (hT : TreeWF C) (bs : Array Bytes) (m n : Nat) (c : Core) (d : Disk) (held : Nat → Bool)
+    (h : RP C bs m c d held) (hm0 : 0 < m) (hmn : m < n) (hn : n ≤ bs.size) (us : List (Nat × Nat))
+    (hup : Up m 0 (rootsStack n).reverse us) (sig : Bytes) (hsl : sig.length = 64)
+    (hver : C.verify c.publicKey (signableAt C bs n c.tree.fork) sig = true) :
+    (c.verifyAndApply C d (honestGrowth C bs c.tree.fork m n us sig)).result = .ok true
+      ∧ RP C bs n (c.verifyAndApply C d (honestGrowth C bs c.tree.fork m n us sig)).core
+          (d.applyAll (c.verifyAndApply C d (honestGrowth C bs c.tree.fork m n us sig)).journal) held
+      ∧ (c.verifyAndApply C d (honestGrowth C bs c.tree.fork m n us sig)).core.publicKey = c.publicKey
+      ∧ (c.verifyAndApply C d (honestGrowth C bs c.tree.fork m n us sig)).core.tree.fork = c.tree.fork := by
+  have hr := h.rep
+  have hN : n < 2 ^ 64 := by have := hr.small.1; omega
+  obtain ⟨cs, hinv, hfork, hsig, hupg, hanc, hhash, hcnt, hshape, hrep1⟩ := growCore_repr C hC bs m n c d held hr hm0 hmn hn us hup sig hsl hver
+  have hroots : cs.roots = rootsAt C bs n := by
+    have := congrArg List.reverse hinv.roots
+    rw [List.reverse_reverse] at this
+    rw [this, rootsAt, List.map_reverse]
+  have hul := up_length m n hm0 hN (rootsStack n).reverse 0 us (cover_roots n) hup
+  have hrl := rootsStack_length_log 64 n hN
+  rw [List.length_reverse] at hul
+  have heo := entryOf_up cs c.header hupg
+  generalize he : (Core.entryOf cs none c.header).1 = e at hshape hrep1
+  have he' : e = { treeNodes := cs.nodes, treeUpgrade := some ⟨cs.fork, cs.ancestors, cs.length, sig⟩, bitfield := none } := by
+    rw [← he, heo, hsig]; rfl
+  have hhd : (growCore c cs).header = { c.header with tree := { c.header.tree with rootHash := rootsHash C cs.roots, signature := sig, length := n } } := by
+    show (Core.entryOf cs none c.header).2 = _
+    rw [heo, hsig, hhash, hinv.length]; rfl
+  have hc1o : (growCore c cs).oplog = (Oplog.appendEntry c.oplog e).1 := by rw [← he]; rfl
+  have hj1 : ∀ op ∈ (Oplog.appendEntry c.oplog e).2, op.store = .oplog := Journal.appendEntry_store _ _
+  have htree : (d.applyAll (Oplog.appendEntry c.oplog e).2).tree = d.tree :=
+    LiveRefine.tree_of_applyAll _ _ (fun op hop => by rw [hj1 op hop]; decide)
+  have hsne : sig.isEmpty = false := by cases sig with | nil => simp at hsl | cons a l => rfl
+  have hstep := rp_step C bs m n c (growCore c cs) d held held
+    (c.verifyAndApply C d (honestGrowth C bs c.tree.fork m n us sig)) e [] h
+    (by rw [hshape]; exact ⟨rfl, rfl⟩) hrep1 (fun hf es hp => by
+      refine persist_entry C c _ d hf es e _ hp ?_ (fun op hop => by cases hop) hc1o ?_ ?_ ?_ ?_ ?_ ?_ ?_ ?_
+      · rw [he']
+        apply entry_ok
+        · apply refNodes_wf C hC bs h.size hr.small.2
+          · intro x hx
+            simp only [Changeset.nodes, List.mem_reverse] at hx
+            obtain ⟨d1, o1, e1, hb⟩ := hinv.nodesRef x hx
+            exact ⟨d1, o1, e1, by omega⟩
+          · omega
+        · omega
+        · intro u hu
+          cases hu
+          refine ⟨?_, ?_, ?_, hsl⟩
+          · show U64 cs.fork
+            rw [hfork, ← hp.hdrFork]; exact hp.shape.fork
+          · show U64 cs.ancestors
+            rw [hanc, hr.closed.sparse.length]; unfold U64; omega
+          · show U64 cs.length
+            rw [hinv.length]; exact hN
+        · intro b hb; cases hb
+      · intro ol b hb1 hb2
+        refine ⟨b, ?_, hb1, hb2⟩
+        have := replay_grow C bs d c ol b cs n sig hN hroots hinv.length hinv.bytes hsig hsl hupg hanc hhash hfork
+          (by rw [hr.roots]; exact allRef_rootsAt C bs m)
+          (fun p hp' => by rw [← htree]; exact hrep1.closed.sparse.roots p hp')
+        rw [he] at this
+        exact this
+      · exact hp.dirty
+      · rw [hhd]
+        exact hdrShape_set c.header hp.shape _ _ _ _ (by rw [rootsHash, hT]) (by omega) hN hp.shape.contig
+      · rw [hhd]; exact hinv.length.symm
+      · rw [hhd]; show c.header.tree.fork = cs.fork; rw [hfork]; exact hp.hdrFork
+      · rw [hhd]; show cs.signature = _; simp only [hsne, Bool.false_eq_true, ite_false]; exact hsig
+      · rw [hhd]; exact Or.inr hsl
+      · rw [hhd]; exact hp.keys)
+  refine ⟨by rw [hshape], by simpa using hstep, ?_, ?_⟩
+  · rw [hshape]
+    simp only []
+    rw [LiveRefine.maybeFlush_eq]
+    split <;> rfl
+  · rw [hshape]
+    simp only []
+    rw [LiveRefine.maybeFlush_eq]
+    split <;> exact hfork
+
+/-! ### creation and first contact -/
+
+theorem hdrShape_new_replica (pk : Bytes) (hpk : pk.length = 32) : HdrShape (Header.new pk none) := by
+  have hns : defaultNamespace.length = 32 := by decide
+  have hu : U64 0 := by unfold U64; omega
+  exact ⟨hpk, hns, hpk, hpk, (fun s hs => by cases hs), rfl, rfl, hu, hu, Nat.zero_le _, Nat.zero_le _, hu⟩
+
+/-- **creating a replica**: `Hypercore::new` with a public key only over empty stores gives a core that knows nothing
+    (`FreshR`, for every log within the format's limits) and satisfies the ghost invariant -/
+theorem init_replica (C : Crypto) (pk : Bytes) (hpk : pk.length = 32) :
+    ∃ c j, Core.openCore C (some (pk, none)) {} = .ok (c, j) ∧ c.publicKey = pk ∧ c.tree.fork = 0
+      ∧ (∀ bs : Array Bytes, bs.size < 2 ^ 64 ∧ psum bs bs.size < 2 ^ 64 → FreshR C bs c (({} : Disk).applyAll j))
+      ∧ PersistR C c (({} : Disk).applyAll j) (Header.new pk none) [] := by
+  generalize hih : Oplog.insertHeader (Header.new pk none) 0 Spec.initialBits false = ih
+  have hops : ∀ op ∈ ih.2, op.store = .oplog := by rw [← hih]; exact Journal.insertHeader_store _ _ _ _
+  have ho : Oplog.openLog (some (pk, none)) [] = .ok ⟨{ bits := ih.1 }, Header.new pk none, ih.2, []⟩ := by
+    simp [Oplog.openLog, Oplog.readLog, Spec.headerSize, Spec.entriesOffset, hih]
+  have hd1tree : (({} : Disk).applyAll ih.2).tree = File.empty :=
+    LiveRefine.tree_of_applyAll _ _ (fun op hop => by rw [hops op hop]; decide)
+  have hd1bf : (({} : Disk).applyAll ih.2).bitfield = File.empty :=
+    Journal.applyAll_other _ _ .bitfield (fun op hop => by rw [hops op hop]; decide)
+  have htree : Tree.openTree (Header.new pk none).tree (({} : Disk).applyAll ih.2).tree = .ok {} := by
+    rw [hd1tree]
+    simp [Tree.openTree, Header.new, Flat.fullRoots, Flat.fullRootsAux, Tree.openTree.load]
+  have hbf : Bitfield.ofFile (({} : Disk).applyAll ih.2).bitfield = {} := by
+    rw [hd1bf]; simp [Bitfield.ofFile, File.empty, File.size]
+  have hshape := hdrShape_new_replica pk hpk
+  refine ⟨{ publicKey := pk, secret := none, oplog := { bits := ih.1 }, header := Header.new pk none,
+            tree := {}, bitfield := {}, skipFlush := 0 }, ih.2, ?_, rfl, rfl, ?_, ?_⟩
+  · have hdisk : (({} : Disk).oplog.toList) = [] := rfl
+    simp only [Core.openCore, hdisk, ho, htree, hbf, Core.openCore.replay]
+    rfl
+  · intro bs hs
+    refine ⟨⟨rfl, ?_, ?_⟩, rfl, rfl, ?_, ?_, ?_, ?_, hs⟩
+    · intro i n h
+      rw [hd1tree] at h
+      simp [Tree.node?, File.read, File.empty, File.size, Spec.nodeSize] at h
+    · intro p hp
+      simp [RefProof.rootsStack_zero] at hp
+    · intro k n h; simp at h
+    · rw [hd1tree]; rfl
+    · intro i; simp [Bitfield.get]
+    · exact ⟨(fun i hi => by cases hi), by simp [Bitfield.get]⟩
+  · refine ⟨?_, ⟨{}, htree, fun ol => ⟨{}, ?_, fun _ => rfl, ?_⟩⟩, ?_, ?_, hshape, rfl, rfl, rfl, Or.inl rfl, ⟨rfl, rfl⟩⟩
+    · have hfile : (({} : Disk).applyAll ih.2).oplog = ih.2.foldl (fun g op => op.onFile g) File.empty := by
+        have := Persist.applyAll_last_only ({} : Disk) [] ih.2 .oplog (fun op hop => by cases hop) hops
+        simpa [Disk.get] using this
+      rw [hfile, ← hih]
+      exact opinv_create _ (headerOK_of_shape _ hshape)
+    · rw [hbf]; rfl
+    · intro i hne; exfalso; apply hne; rw [hbf]
+    · rw [hd1bf]; rfl
+    · intro i hne; exfalso; apply hne; rw [hbf]
+
+/-- **first contact keeps the ghost invariant and establishes the replica invariant** -/
+theorem rp_first (C : Crypto) (hC : HashWF C) (hT : TreeWF C) (bs : Array Bytes) (hs : bs.size < 2 ^ 62 ∧ psum bs bs.size < 2 ^ 64)
+    (n : Nat) (h0 : 0 < n) (hn : n ≤ bs.size) (c : Core) (d : Disk) (h : FreshR C (bs.extract 0 n) c d)
+    (hper : ∃ hf es, PersistR C c d hf es) (sig : Bytes) (hsl : sig.length = 64)
+    (hver : C.verify c.publicKey (signableAt C bs n c.tree.fork) sig = true) :
+    (c.verifyAndApply C d (honestFirst C bs c.tree.fork n sig)).result = .ok true
+      ∧ RP C bs n (c.verifyAndApply C d (honestFirst C bs c.tree.fork n sig)).core
+          (d.applyAll (c.verifyAndApply C d (honestFirst C bs c.tree.fork n sig)).journal) (fun _ => false)
+      ∧ (c.verifyAndApply C d (honestFirst C bs c.tree.fork n sig)).core.publicKey = c.publicKey
+      ∧ (c.verifyAndApply C d (honestFirst C bs c.tree.fork n sig)).core.tree.fork = c.tree.fork := by
+  have hs64 : bs.size < 2 ^ 64 ∧ psum bs bs.size < 2 ^ 64 := ⟨by omega, hs.2⟩
+  have hN : n < 2 ^ 64 := by omega
+  have hsz := size_extract bs n hn
+  have hpf : honestFirst C bs c.tree.fork n sig = honestUpgrade C (bs.extract 0 n) c.tree.fork sig := by
+    simp only [honestFirst, honestUpgrade, roots_extract C bs n hn, size_extract bs n hn]
+  rw [hpf]
+  obtain ⟨cs, hroots0, hlen0, hfork, hsig, hnodes0, hupg, hanc, hbytes0, hhash, hshape, hrep0⟩ :=
+    firstCore_repr C hC (bs.extract 0 n) c d h (by rw [hsz]; exact h0) sig hsl (by rw [signable_extract C bs n hn]; exact hver)
+  have hroots : cs.roots = rootsAt C bs n := by rw [hroots0, roots_extract C bs n hn]
+  have hnodes : cs.nodes = rootsAt C bs n := by rw [hnodes0, roots_extract C bs n hn]
+  have hlen : cs.length = n := by rw [hlen0, hsz]
+  have hbytes : cs.byteLength = psum bs n := by rw [hbytes0, hsz, psum_extract bs n hn n (Nat.le_refl _)]
+  have hrep1 := (repr_extract C bs n hn hs64 _ _ _).mp hrep0
+  have hrl := rootsStack_length_log 64 n hN
+  have heo := entryOf_up cs c.header hupg
+  generalize he : (Core.entryOf cs none c.header).1 = e at hshape hrep1
+  have he' : e = { treeNodes := cs.nodes, treeUpgrade := some ⟨cs.fork, cs.ancestors, cs.length, sig⟩, bitfield := none } := by
+    rw [← he, heo, hsig]; rfl
+  have hhd : (growCore c cs).header = { c.header with tree := { c.header.tree with rootHash := rootsHash C cs.roots, signature := sig, length := n } } := by
+    show (Core.entryOf cs none c.header).2 = _
+    rw [heo, hsig, hhash, hlen]; rfl
+  have hc1o : (growCore c cs).oplog = (Oplog.appendEntry c.oplog e).1 := by rw [← he]; rfl
+  have hj1 : ∀ op ∈ (Oplog.appendEntry c.oplog e).2, op.store = .oplog := Journal.appendEntry_store _ _
+  have htree : (d.applyAll (Oplog.appendEntry c.oplog e).2).tree = d.tree :=
+    LiveRefine.tree_of_applyAll _ _ (fun op hop => by rw [hj1 op hop]; decide)
+  have hsne : sig.isEmpty = false := by cases sig with | nil => simp at hsl | cons a l => rfl
+  obtain ⟨hf, es, hp⟩ := hper
+  have hp1 : PersistR C (growCore c cs) (d.applyAll ([] ++ (Oplog.appendEntry c.oplog e).2)) hf (es ++ [e]) := by
+    refine persist_entry C c _ d hf es e _ hp ?_ (fun op hop => by cases hop) hc1o ?_ ?_ ?_ ?_ ?_ ?_ ?_ ?_
+    · rw [he']
+      apply entry_ok
+      · apply refNodes_wf C hC bs hs.1 hs.2
+        · intro x hx
+          rw [hnodes, rootsAt] at hx
+          obtain ⟨p, hp', rfl⟩ := List.mem_map.mp hx
+          exact ⟨p.1, p.2, rfl, Nat.le_trans (rootsStack_bound n p (List.mem_reverse.mp hp')) hn⟩
+        · rw [hnodes, rootsAt, List.length_map, List.length_reverse]; omega
+      · rw [hnodes, rootsAt, List.length_map, List.length_reverse]; omega
+      · intro u hu
+        cases hu
+        refine ⟨?_, ?_, ?_, hsl⟩
+        · show U64 cs.fork
+          rw [hfork, ← hp.hdrFork]; exact hp.shape.fork
+        · show U64 cs.ancestors
+          rw [hanc, h.empty.length]; unfold U64; omega
+        · show U64 cs.length
+          rw [hlen]; exact hN
+      · intro b hb; cases hb
+    · intro ol b hb1 hb2
+      refine ⟨b, ?_, hb1, hb2⟩
+      have := replay_grow C bs d c ol b cs n sig hN hroots hlen hbytes hsig hsl hupg hanc hhash hfork
+        (by rw [h.roots]; intro x hx; cases hx)
+        (fun p hp' => by rw [← htree]; exact hrep1.closed.sparse.roots p hp')
+      rw [he] at this
+      exact this
+    · exact hp.dirty
+    · rw [hhd]
+      exact hdrShape_set c.header hp.shape _ _ _ _ (by rw [rootsHash, hT]) (by omega) hN hp.shape.contig
+    · rw [hhd]; exact hlen.symm
+    · rw [hhd]; show c.header.tree.fork = cs.fork; rw [hfork]; exact hp.hdrFork
+    · rw [hhd]; show cs.signature = _; simp only [hsne, Bool.false_eq_true, ite_false]; exact hsig
+    · rw [hhd]; exact Or.inr hsl
+    · rw [hhd]; exact hp.keys
+  simp only [List.nil_append] at hp1
+  refine ⟨by rw [hshape], ?_, ?_, ?_⟩
+  · rw [hshape]
+    simp only []
+    rw [Journal.applyAll_append]
+    exact ⟨maybeFlush_reprAt C bs n _ _ _ hrep1, persist_maybeFlush C bs n (growCore c cs) _ (fun _ => false) hf (es ++ [e]) hrep1 hp1, hs.1⟩
+  · rw [hshape]
+    simp only []
+    rw [LiveRefine.maybeFlush_eq]
+    split <;> rfl
+  · rw [hshape]
+    simp only []
+    rw [LiveRefine.maybeFlush_eq]
+    split <;> exact hfork
+
+/-! ### exchanges and reopens, in any order -/
+
+/-- what happens to the replica next: one of the exchanges of `HashReq.Act`, or the process ends and the stores are
+    opened again with `Hypercore::new` (no key pair given) -/
+inductive ActR
+  | act (a : Act)
+  | reopen
+
+def stepR (C : Crypto) (bs : Array Bytes) : Core × Disk → ActR → (Core × Disk) × R Bool
+  | (c, d), .act a => (((c.verifyAndApply C d (actProof C bs c d a)).core, d.applyAll (c.verifyAndApply C d (actProof C bs c d a)).journal),
+      (c.verifyAndApply C d (actProof C bs c d a)).result)
+  | (c, d), .reopen =>
+    match openCore C none d with
+    | .ok (c', j) => ((c', d.applyAll j), .ok true)
+    | .error e => ((c, d), .error e)
+
+def playR (C : Crypto) (bs : Array Bytes) : Core × Disk → List ActR → Core × Disk
+  | s, [] => s
+  | s, a :: r => playR C bs (stepR C bs s a).1 r
+
+def resultsR (C : Crypto) (bs : Array Bytes) : Core × Disk → List ActR → List (R Bool)
+  | _, [] => []
+  | s, a :: r => (stepR C bs s a).2 :: resultsR C bs (stepR C bs s a).1 r
+
+/-- the exchanges among the acts -/
+def exchanges : List ActR → List Act
+  | [] => []
+  | .act a :: r => a :: exchanges r
+  | .reopen :: r => exchanges r
+
+theorem playR_rp (C : Crypto) (hC : HashWF C) (hT : TreeWF C) (bs : Array Bytes) (pk : Bytes) (fork : Nat) :
+    ∀ (acts : List ActR) (m : Nat) (c : Core) (d : Disk) (held : Nat → Bool), RP C bs m c d held → 0 < m →
+      c.publicKey = pk → c.tree.fork = fork → OkActs C bs pk fork m (exchanges acts) →
+      RP C bs (lenAfter m (exchanges acts)) (playR C bs (c, d) acts).1 (playR C bs (c, d) acts).2 (fun j => held j || fetched (exchanges acts) j)
+        ∧ resultsR C bs (c, d) acts = acts.map (fun _ => .ok true) := by
+  intro acts
+  induction acts with
+  | nil =>
+    intro m c d held h _ _ _ _
+    refine ⟨?_, rfl⟩
+    have : (fun j => held j || fetched (exchanges []) j) = held := by funext j; simp [fetched, exchanges]
+    rw [this]; exact h
+  | cons a r ih =>
+    intro m c d held h hm0 hpk hfk hok
+    cases a with
+    | reopen =>
+      obtain ⟨c', e1, e2, e3, e4⟩ := rp_reopen C bs m c d held h
+      have hstep : stepR C bs (c, d) .reopen = ((c', d), .ok true) := by simp only [stepR, e1]; rfl
+      obtain ⟨q1, q2⟩ := ih m c' d held e2 hm0 (by rw [e3, hpk]) (by rw [e4, hfk]) hok
+      refine ⟨?_, by simp only [resultsR, hstep, List.map_cons]; rw [q2]⟩
+      simpa [playR, hstep, exchanges] using q1
+    | act a =>
+      cases a with
+      | grow n us sig =>
+        obtain ⟨o1, o2, o3, o4, o5, o6⟩ := hok
+        have hlen : c.tree.length = m := h.rep.closed.sparse.length
+        obtain ⟨r1, r2, r3, r4⟩ := rp_grow C hC hT bs m n c d held h hm0 o1 o2 us o3 sig o4 (by rw [hpk, hfk]; exact o5)
+        have hact : actProof C bs c d (.grow n us sig) = honestGrowth C bs c.tree.fork m n us sig := by simp [actProof, hlen]
+        rw [← hact] at r1 r2 r3 r4
+        obtain ⟨q1, q2⟩ := ih n _ _ held r2 (by omega) (by rw [r3, hpk]) (by rw [r4, hfk]) o6
+        refine ⟨?_, by simp only [resultsR, stepR, r1, List.map_cons]; rw [q2]⟩
+        simpa [playR, stepR, exchanges, lenAfter, fetched] using q1
+      | fetch i =>
+        obtain ⟨o1, o2⟩ := hok
+        obtain ⟨r1, r2, r3, r4⟩ := rp_block C hC bs m c d held h i o1
+        obtain ⟨q1, q2⟩ := ih m _ _ _ r2 hm0 (by rw [r3, hpk]) (by rw [r4, hfk]) o2
+        refine ⟨?_, by simp only [resultsR, stepR, actProof, r1, List.map_cons]; rw [q2]⟩
+        have : (fun j => held j || fetched (exchanges (.act (Act.fetch i) :: r)) j) = (fun j => (held j || j == i) || fetched (exchanges r) j) := by
+          funext j; simp [fetched, exchanges, Bool.or_assoc]
+        rw [this]
+        simpa [playR, stepR, exchanges, lenAfter, actProof] using q1
+      | hash d0 o0 =>
+        obtain ⟨o1, o2⟩ := hok
+        obtain ⟨r1, r2, r3, r4⟩ := rp_hash C hC bs m c d held h d0 o0 o1
+        obtain ⟨q1, q2⟩ := ih m _ _ held r2 hm0 (by rw [r3, hpk]) (by rw [r4, hfk]) o2
+        refine ⟨?_, by simp only [resultsR, stepR, actProof, r1, List.map_cons]; rw [q2]⟩
+        simpa [playR, stepR, exchanges, lenAfter, actProof, fetched] using q1
+
 end HC.ReplicaReopen
